@@ -8,6 +8,8 @@ an `ast` pass for C10 (Generated/FacFlow.lean).  The models and theorems of Prop
   `try` around `_send_cam`, whose handlers return (bookkeeping strictly after a successful transmission);
 * in `_send_cam` the LDM feed cannot abort the bookkeeping (own try/except)            -> variant flag `ldmIsolated`;
 * `start()` records the restart hold and `_evaluate_and_maybe_send` honours it           -> variant flag `restartHold`;
+* the hold is stored only by `start()`, only when a CAM went out in the activation that just ended, never as None
+  (a second quick restart without a CAM in between cannot clear it)                      -> variant flag `holdSticky`;
 * the VAM callback never compares generationDeltaTime values directly (only `-`, which is wrap-aware);
 * the VAM low-frequency timer is written after the BTP request, not when the container is attached -> `lfAfterSend`.
 """
@@ -96,6 +98,71 @@ def _mentions_gdt(node):
     return False
 
 
+HOLD = "_restart_hold_until_ms"
+
+
+def _establishes_last_cam(test, aliases=()):
+    """the test guarantees `self._last_cam_time_ms is not None` when it is true (alone or as a conjunct of `and`);
+    `aliases`: local names bound to `self._last_cam_time_ms` by a plain assignment in the same function"""
+    if isinstance(test, ast.BoolOp) and isinstance(test.op, ast.And):
+        return any(_establishes_last_cam(v, aliases) for v in test.values)
+    return (isinstance(test, ast.Compare) and len(test.ops) == 1 and isinstance(test.ops[0], ast.IsNot)
+            and (_is_self_attr(test.left, "_last_cam_time_ms") or (isinstance(test.left, ast.Name) and test.left.id in aliases))
+            and isinstance(test.comparators[0], ast.Constant) and test.comparators[0].value is None)
+
+
+def _last_cam_aliases(fn):
+    return tuple(t.id for n in ast.walk(fn) if isinstance(n, ast.Assign) and _is_self_attr(n.value, "_last_cam_time_ms")
+                 for t in n.targets if isinstance(t, ast.Name))
+
+
+def _hold_writes(stmts, guarded, aliases=()):
+    """[(guarded by `_last_cam_time_ms is not None`?, value expression | None)] for every store to the restart hold below"""
+    out = []
+    for s in stmts:
+        if isinstance(s, ast.If):
+            out += _hold_writes(s.body, guarded or _establishes_last_cam(s.test, aliases), aliases)
+            out += _hold_writes(s.orelse, guarded, aliases)
+            continue
+        if isinstance(s, (ast.FunctionDef, ast.AsyncFunctionDef, ast.ClassDef)):
+            out += _hold_writes(s.body, False)
+            continue
+        targets, value = [], None
+        if isinstance(s, ast.Assign):
+            targets, value = s.targets, s.value
+        elif isinstance(s, (ast.AugAssign, ast.AnnAssign)):
+            targets, value = [s.target], s.value
+        elif isinstance(s, ast.Delete):
+            targets = s.targets
+        if any(_is_self_attr(x, HOLD) for t in targets for x in ast.walk(t)):
+            out.append((guarded, value))
+        for field in ("body", "orelse", "finalbody"):
+            out += _hold_writes(getattr(s, field, []) or [], guarded, aliases)
+        for h in getattr(s, "handlers", []) or []:
+            out += _hold_writes(h.body, guarded, aliases)
+        for c in getattr(s, "cases", []) or []:
+            out += _hold_writes(c.body, guarded, aliases)
+    return out
+
+
+def _hold_only_raised(tree, cls):
+    """Outside `__init__` the restart hold is stored only by `start()`, only under `self._last_cam_time_ms is not None`
+    (a CAM went out in the activation that just ended) and never with a value that can be None: an activation without a
+    CAM cannot clear or shorten a hold that is still in force (several quick restarts in a row)."""
+    for node in ast.walk(tree):
+        if isinstance(node, ast.ClassDef) and node.name == cls:
+            for fn in node.body:
+                if not isinstance(fn, ast.FunctionDef) or fn.name == "__init__":
+                    continue
+                for guarded, value in _hold_writes(fn.body, False, _last_cam_aliases(fn)):
+                    if fn.name != "start" or not guarded or value is None:
+                        return False
+                    if any(isinstance(n, ast.Constant) and n.value is None for n in ast.walk(value)):
+                        return False
+            return True
+    return False
+
+
 def facts():
     cam = ast.parse(src(CAM_TM))
     vam = ast.parse(src(VAM_TM))
@@ -146,6 +213,7 @@ def facts():
     hold_read = any(isinstance(n, ast.Compare) and any(_is_self_attr(x, "_restart_hold_until_ms") for x in ast.walk(n))
                     and any(isinstance(o, (ast.Lt, ast.LtE, ast.Gt, ast.GtE)) for o in n.ops) for n in ast.walk(ev))
     f["CAM_RESTART_HOLD"] = hold_written and hold_read
+    f["CAM_RESTART_HOLD_STICKY"] = hold_written and _hold_only_raised(cam, cls)
 
     vcls = "VAMTransmissionManagement"
     cb = _func(vam, vcls, "location_service_callback")
